@@ -873,6 +873,9 @@ func hpScenarioName(sc *hpScenario) string {
 	if sc.TryTimeoutMs > 0 {
 		s += " try-timeout"
 	}
+	if sc.RouteTimeoutMs != 0 && sc.RouteTimeoutMs != 1000 {
+		s += fmt.Sprintf(" global-timeout=%dms", sc.RouteTimeoutMs)
+	}
 	if sc.DownDisconnect {
 		s += " down-disconnect"
 	}
